@@ -38,7 +38,7 @@ def rule(tier):
 def floors(tier):
     return {"evaluations": 350 if tier == "quick" else 3000, "distinct": 350 if tier == "quick" else 3000,
             "counters": {"fixture_cases": 200, "partial_variants": 150, "api_documents": 150, "tables_compared": 800, "row_heights_compared": 10000, "col_widths_compared": 5000,
-                         "documents_with_borders": 40, "untouched_variants": 90, "later_cycles": 300, "captions_set": 30, "heights_set": 30, "widths_set": 30}}
+                         "documents_with_borders": 40, "untouched_variants": 90, "later_cycles": 300, "captions_set": 30, "heights_set": 30, "widths_set": 30, "merges_full_height_set": 8, "merges_full_width_set": 8, "api_on_source_documents": 40}}
 
 
 def plan(tier, seed):
@@ -213,8 +213,24 @@ def run_fixture(spec, rec):
     rec.sample({"fixture": os.path.basename(spec["path"]), "queried_first": spec["queried"], "cycles": spec["cycles"]})
 
 
-def api_recipe(rng):
-    """A document built through the API with a random subset of the geometry/label attributes set."""
+def fixture_tables(path):
+    """[((sheet, table), rows, cols)] of a source document (at most 3 tables, each at least 2x2)."""
+    from numbers_parser import Document
+    with warnings.catch_warnings():
+        warnings.simplefilter("ignore")
+        doc = Document(path)
+        out = []
+        for si in range(len(doc.sheets)):
+            for ti in range(len(doc.sheets[si].tables)):
+                t = doc.sheets[si].tables[ti]
+                if t.num_rows >= 2 and t.num_cols >= 2 and t.num_rows * t.num_cols <= 4000:
+                    out.append(((si, ti), t.num_rows, t.num_cols))
+    return out[:3]
+
+
+def api_recipe(rng, fixture=None):
+    """A document built through the API - or a source document opened from a file - with a random subset of
+    the geometry/label attributes set through the API."""
     ops = []
     R, C = rng.randint(2, 8), rng.randint(2, 6)
     init = {"num_rows": R, "num_cols": C}
@@ -223,19 +239,23 @@ def api_recipe(rng):
     if rng.random() < .4:
         init["table_name"] = rng.choice(["Tableau ü", "表", "My Table"])
     tables = [((0, 0), R, C)]
-    if rng.random() < .4:
+    if fixture is not None:
+        init = {"fixture": fixture}
+        tables = fixture_tables(fixture)
+    if rng.random() < .4 and fixture is None:
         r2, c2 = rng.randint(2, 6), rng.randint(2, 5)
         op = {"op": "add_table", "sheet": 0, "table_name": "Second", "num_rows": r2, "num_cols": c2}
         if rng.random() < .6:
             op["x"], op["y"] = float(rng.randrange(0, 600)), float(rng.randrange(0, 900))
         ops.append(op)
         tables.append(((0, 1), r2, c2))
-    if rng.random() < .3:
+    if rng.random() < .3 and fixture is None:
         r3, c3 = rng.randint(2, 6), rng.randint(2, 5)
         ops.append({"op": "add_sheet", "sheet_name": "Другой", "table_name": "T3", "num_rows": r3, "num_cols": c3})
         tables.append(((1, 0), r3, c3))
     setflags = set()
-    borders = rng.random() < .5
+    lite = fixture is not None  # a source document keeps its own cells, merges, borders and header counts
+    borders = rng.random() < .5 and not lite
     for tb, R_, C_ in tables:
         tbl = list(tb)
         if rng.random() < .6:
@@ -246,9 +266,9 @@ def api_recipe(rng):
             for c in rng.sample(range(C_), rng.randint(1, min(3, C_))):
                 ops.append({"op": "col_width", "tbl": tbl, "c": c, "w": rng.choice([1, 20, 98, 300, 500, rng.randint(1, 500)])})
                 setflags.add("widths")
-        if rng.random() < .5:
+        if rng.random() < .5 and not lite:
             ops.append({"op": "header_rows", "tbl": tbl, "n": rng.randint(0, min(5, R_))})
-        if rng.random() < .5:
+        if rng.random() < .5 and not lite:
             ops.append({"op": "header_cols", "tbl": tbl, "n": rng.randint(0, min(5, C_))})
         if rng.random() < .5:
             ops.append({"op": "caption", "tbl": tbl, "text": rng.choice(["Caption", "", "Deux\nlignes", "キャプション", "x" * 200])})
@@ -265,15 +285,31 @@ def api_recipe(rng):
                 side = rng.choice(["top", "right", "bottom", "left"])
                 ops.append({"op": "border", "tbl": tbl, "r": r, "c": c, "side": side, "width": rng.choice([0.5, 1.0, 2.0, 3.5, 8.0, 10.0]),
                             "color": [rng.randrange(256) for _ in range(3)], "pattern": rng.choice(["solid", "dashes", "dots"]), "length": 1})
-        if rng.random() < .4:
+        if rng.random() < .4 and not lite:
             ops.append({"op": "write", "tbl": tbl, "r": rng.randrange(R_), "c": rng.randrange(C_), "v": {"t": "s", "v": "text"}})
+        if rng.random() < .35 and not lite:
+            # a merged region: geometry is a property of rows and columns, not of the cells stored in them, so a
+            # column (row) that consists of merged placeholders only keeps its width (height) like any other
+            from vf.ref import a1
+            kind = rng.choice(["full-height", "full-width", "inner"])
+            if kind == "full-height":
+                c0 = rng.randrange(C_ - 1)
+                rect = (0, c0, R_ - 1, rng.randint(c0 + 1, C_ - 1))
+            elif kind == "full-width":
+                r0 = rng.randrange(R_ - 1)
+                rect = (r0, 0, rng.randint(r0 + 1, R_ - 1), C_ - 1)
+            else:
+                r0, c0 = rng.randrange(R_ - 1), rng.randrange(C_ - 1)
+                rect = (r0, c0, rng.randint(r0 + 1, R_ - 1), rng.randint(c0, C_ - 1))
+            ops.append({"op": "merge", "tbl": tbl, "range": a1.cell_name(rect[0], rect[1]) + ":" + a1.cell_name(rect[2], rect[3])})
+            setflags.add("merges_" + kind.replace("-", "_"))
     return {"init": init, "ops": ops}, borders, setflags
 
 
 def api_case(case, rec):
     from vf.gen import docs
     rng = random.Random(case["rseed"])
-    recipe, borders, setflags = api_recipe(rng)
+    recipe, borders, setflags = api_recipe(rng, case.get("fixture"))
     d = docs.scratch_dir()
     src = os.path.join(d, f"c16-src-{case['rseed']}.numbers")
     try:
@@ -286,7 +322,7 @@ def api_case(case, rec):
         asked = {}
         for op in recipe["ops"]:
             k = op["op"]
-            if k in ("row_height", "col_width") and not borders:
+            if k in ("row_height", "col_width") and not borders and not case.get("fixture"):  # a source document may have borders of its own
                 asked[(tuple(op["tbl"]), k, op.get("r", op.get("c")))] = op.get("h", op.get("w"))
             elif k in ("header_rows", "header_cols"):
                 asked[(tuple(op["tbl"]), k)] = op["n"]
@@ -310,7 +346,7 @@ def api_case(case, rec):
         return
     try:
         from numbers_parser import Document
-        fx = {"origin": "api", "variant": variant_name(case["queried"]), "has_border": borders}
+        fx = {"origin": "api-on-source-document" if case.get("fixture") else "api", "variant": variant_name(case["queried"]), "has_border": borders}
         # set-through-the-API vs first reopen
         with warnings.catch_warnings():
             warnings.simplefilter("ignore")
@@ -323,6 +359,8 @@ def api_case(case, rec):
         if os.path.exists(src):
             os.remove(src)
     rec.count("api_documents")
+    if case.get("fixture"):
+        rec.count("api_on_source_documents")
     if borders:
         rec.count("documents_with_borders")
     for f in setflags:
@@ -332,8 +370,12 @@ def api_case(case, rec):
 
 def run_api(spec, rec):
     rng = random.Random(f"C16-api-{spec['seed']}-{spec['stream']}")
+    from vf import corpus
+    small = sorted(p for p in corpus.readable_fixtures()[0] if os.path.isfile(p) and os.path.getsize(p) < 400_000 and "pivot" not in os.path.basename(p))  # pivot tables are not written (the library warns)
     for i in range(spec["n"]):
         case = {"part": "api", "rseed": rng.randrange(1 << 40), "queried": rng.choice([False, True, "partial"]), "cycles": spec["cycles"]}
+        if rng.random() < .3 and small:
+            case["fixture"] = rng.choice(small)
         api_case(case, rec)
         if i == 0:
             rec.sample({"api_document": case})
